@@ -5,6 +5,7 @@ Runs the libTooling front end (build/nstd_extract) over every library unit of
 AST nodes, CFG, positions, dominators, path queries and a canonical expression
 renderer.  Nothing of libnstd is executed.
 """
+import copy
 import hashlib
 import json
 import os
@@ -199,6 +200,7 @@ def load_program(repo=REPO, ndebug=True, witness_units=("instantiate.cpp",), ver
     gone = inline.inline_program(raw, log=prog.inlined) if inline_helpers else set()
     if inline_helpers:
         inline.dealias_new_references(raw)
+        inline.dealias_new_snapshots(raw, lambda d_: Function(copy.deepcopy(d_), prog))
     for sig, f in raw.items():
         if sig in gone:
             continue
